@@ -44,7 +44,12 @@ RULE = ("cases = write scripts (write of any of the 12 integer types / &str / St
         "line: for every writer the sink contents after each of its flushes and after its drop, every value a reader returns, in history "
         "order; harness oracle fmt; in the debug build `ub`: after every inherent call the writer's sink holds everything written to it. "
         "(9) `c` lines: ASCII characters (all 128 codes, NUL / control / DEL / the whitespace characters) written with write_char, the writer "
-        "dropped, every non-whitespace byte read back with read::<char>(), then is_eof()")
+        "dropped, every non-whitespace byte read back with read::<char>(), then is_eof(). Wave 5: (8e) `m` steps DU / DG — the object is dropped "
+        "WHILE THE THREAD IS UNWINDING from a panic (nested catch_unwind around a closure that owns the writer and panics: DU; around a closure "
+        "holding a scope guard whose destructor drops the writer during the unwinding: DG): pending bytes of 10 kinds (trait method = pending in "
+        "both builds, inherent calls, at / over the fill boundary) x 5 sink kinds x {alone, after a flush, after a move, second writer alive, a "
+        "whole new writer life right after, fill steered to BUF-d}; every third drop of the random interleavings (8d) is DU/DG. For the model and "
+        "the specification DU and DG are the operation drop (the sink must hold everything written); same D= event, same fmt oracle")
 ASSUMPTIONS = [
     "the Lean model of rlib_io::Writer is hand-written; it is tied to the code by running both on the same scripts in both profiles",
     "std's Write::write_all is trusted to be its documented loop: the model's flush hands a whole slice to the sink; that this loop "
@@ -67,6 +72,11 @@ ASSUMPTIONS += [
     "looked at (how much a writer has delivered before flush/drop is not promised)",
     "`c` lines and the read-back of words: the domain is ASCII (the Reader returns bytes as Latin-1 characters, so a non-ASCII String does not "
     "read back as itself — C08 residue); non-ASCII strings (pattern kinds 2 and 4) are compared on the write side only",
+]
+ASSUMPTIONS += [
+    "`m` steps DU / DG: the driver maps them to the model's existing `drop` (no new model material: the property promises the same of a drop "
+    "during unwinding as of any other drop); the harness realises them with a real panic!() inside a nested catch_unwind, so "
+    "std::thread::panicking() is true in the destructor; the harness's sinks never fail, so no double panic can arise on unchanged code",
 ]
 TRUSTED_EXTRA = ["std::io::Write::write_all"]
 MANIFEST = {
